@@ -21,9 +21,60 @@ pub struct Snap {
 /// (clause, key, message)
 pub type Bad = (String, String, String);
 
-/// Set equality of resource sets (the representation is not canonical).
+/// Set equality of resource sets. The representation is not canonical and
+/// rpki's own `contains` / `union` give wrong answers for sets whose blocks
+/// overlap (such sets come out of unions over resource classes), so the
+/// comparison is made on merged numeric ranges read from the textual form.
 pub fn rs_eq(a: &ResourceSet, b: &ResourceSet) -> bool {
-    a.contains(b) && b.contains(a)
+    rs_ranges(a) == rs_ranges(b)
+}
+
+/// (AS ranges, IPv4 ranges, IPv6 ranges), each sorted and merged.
+pub fn rs_ranges(rs: &ResourceSet) -> (Vec<(u128, u128)>, Vec<(u128, u128)>, Vec<(u128, u128)>) {
+    fn merge(mut v: Vec<(u128, u128)>) -> Vec<(u128, u128)> {
+        v.sort();
+        let mut out: Vec<(u128, u128)> = Vec::new();
+        for (lo, hi) in v {
+            match out.last_mut() {
+                Some(last) if lo <= last.1.saturating_add(1) => last.1 = last.1.max(hi),
+                _ => out.push((lo, hi)),
+            }
+        }
+        out
+    }
+    fn addr(s: &str) -> Option<(u128, u32)> {
+        match s.parse::<std::net::IpAddr>().ok()? {
+            std::net::IpAddr::V4(a) => Some((u32::from(a) as u128, 32)),
+            std::net::IpAddr::V6(a) => Some((u128::from(a), 128)),
+        }
+    }
+    fn ip_item(s: &str) -> Option<(u128, u128)> {
+        let s = s.trim();
+        if let Some((a, l)) = s.split_once('/') {
+            let (base, bits) = addr(a)?;
+            let len: u32 = l.parse().ok()?;
+            let host = bits - len.min(bits);
+            let mask: u128 = if host >= 128 { u128::MAX } else { (1u128 << host) - 1 };
+            Some((base & !mask, (base & !mask) | mask))
+        } else if let Some((a, b)) = s.split_once('-') {
+            Some((addr(a.trim())?.0, addr(b.trim())?.0))
+        } else {
+            let (base, _) = addr(s)?;
+            Some((base, base))
+        }
+    }
+    fn asn_item(s: &str) -> Option<(u128, u128)> {
+        let n = |x: &str| x.trim().trim_start_matches("AS").parse::<u128>().ok();
+        match s.split_once('-') {
+            Some((a, b)) => Some((n(a)?, n(b)?)),
+            None => n(s).map(|x| (x, x)),
+        }
+    }
+    let split = |text: String| -> Vec<String> { text.split(',').map(|x| x.trim().to_string()).filter(|x| !x.is_empty()).collect() };
+    let asn = merge(split(rs.asn().to_string()).iter().filter_map(|x| asn_item(x)).collect());
+    let v4 = merge(split(rs.ipv4().to_string()).iter().filter_map(|x| ip_item(x)).collect());
+    let v6 = merge(split(rs.ipv6().to_string()).iter().filter_map(|x| ip_item(x)).collect());
+    (asn, v4, v6)
 }
 
 pub fn bad(clause: &str, key: &str, msg: String) -> Bad {
